@@ -27,6 +27,7 @@ type Rec struct {
 	Classes map[felt.Felt]*core.DeclaredClassDefinition
 	NewCls  bool // classes written through core/state (new backend) instead of core (legacy)
 	Casm    map[felt.SierraClassHash]core.ClassCasmHashMetadata
+	L1      *core.L1Head // written with the record when not nil (one per store: last write wins)
 }
 
 // WriteRec stores a record with the same writers and in the same order as
@@ -57,6 +58,11 @@ func WriteRec(d db.KeyValueStore, rec *Rec) error {
 			}
 			if err != nil {
 				return fmt.Errorf("WriteClass: %w", err)
+			}
+		}
+		if rec.L1 != nil {
+			if err := core.WriteL1Head(w, rec.L1); err != nil {
+				return fmt.Errorf("WriteL1Head: %w", err)
 			}
 		}
 		for ch, md := range rec.Casm {
@@ -91,6 +97,12 @@ func (c *Checker) fail(accessor, kind, field, detail string) {
 	c.res.Violate(lib.Violation{Sig: sig,
 		What:   fmt.Sprintf("%s on %s: %s", accessor, c.backend, detail),
 		Replay: c.replay(accessor, detail)})
+}
+
+// failSig records a violation under a cause-specific signature.
+func (c *Checker) failSig(sig, detail string) {
+	c.bad++
+	c.res.Violate(lib.Violation{Sig: sig, What: fmt.Sprintf("%s [%s]", detail, c.backend), Replay: c.replay(sig, detail)})
 }
 
 // eq checks one accessor result against what was stored.
@@ -172,7 +184,7 @@ func normBlock(b *core.Block) *core.Block {
 // DeleteCheck runs the lazy consumer used by RevertHead (DeleteTransactionsAndReceipts iterates
 // over the stored transactions to find the hash-index and L1-message entries to delete) and checks
 // that exactly the block's index entries are gone.
-func DeleteCheck(c *Checker, d db.KeyValueStore, rec *Rec) {
+func DeleteCheck(c *Checker, d db.KeyValueStore, rec, replacement *Rec) {
 	n := rec.Header.Number
 	var err error
 	perr, panicked, _ := lib.Try(func() error {
@@ -189,20 +201,100 @@ func DeleteCheck(c *Checker, d db.KeyValueStore, rec *Rec) {
 		c.fail("core.DeleteTransactionsAndReceipts", "error", errClass(err), err.Error())
 		return
 	}
+	// the index entries themselves (GetTransactionByHash would also be not-found merely because
+	// the blob is gone)
 	for i, tx := range rec.Txs {
-		if _, err := core.GetTransactionByHash(d, (*felt.TransactionHash)(tx.Hash())); !errors.Is(err, db.ErrKeyNotFound) {
-			c.fail("core.DeleteTransactionsAndReceipts", "stale-hash-index", "", fmt.Sprintf("transaction %d of the deleted block is still found by hash (err=%v)", i, err))
-			return
+		kind := reflect.TypeOf(tx).Elem().Name()
+		c.res.Hit("delete-check:" + kind + nonceTag(tx))
+		if _, err := core.TransactionBlockNumbersAndIndicesByHashBucket.Get(d, (*felt.TransactionHash)(tx.Hash())); !errors.Is(err, db.ErrKeyNotFound) {
+			c.failSig("delete-leaves-tx-hash-index-"+kind, fmt.Sprintf("transaction %d (%s) of the deleted block still has its hash -> (block, index) entry (err=%v)", i, kind, err))
 		}
 		if l1, ok := tx.(*core.L1HandlerTransaction); ok {
 			if _, err := core.GetL1HandlerTxnHashByMsgHash(d, l1.MessageHash()); !errors.Is(err, db.ErrKeyNotFound) {
-				c.fail("core.DeleteTransactionsAndReceipts", "stale-l1-message-index", "", fmt.Sprintf("L1 message of transaction %d still resolves (err=%v)", i, err))
-				return
+				c.failSig("delete-leaves-l1-message-index", fmt.Sprintf("L1 message of transaction %d still resolves (err=%v)", i, err))
 			}
 		}
 	}
 	if _, err := core.GetTransactionsByBlockNumber(d, n); !errors.Is(err, db.ErrKeyNotFound) {
-		c.fail("core.DeleteTransactionsAndReceipts", "blob-not-deleted", "", fmt.Sprintf("block transactions still readable (err=%v)", err))
+		c.failSig("delete-leaves-block-transactions", fmt.Sprintf("block transactions still readable (err=%v)", err))
+	}
+	if replacement == nil {
+		return
+	}
+	// a different block takes the height: the old hashes must not resolve to anything
+	if err := WriteRec(d, replacement); err != nil {
+		c.failSig("replacement-write-fails", err.Error())
+		return
+	}
+	StaleHashCheck(c, d, blockchain.New(d, lib.TestNetwork()), rec.Txs)
+}
+
+func nonceTag(tx core.Transaction) string {
+	if l1, ok := tx.(*core.L1HandlerTransaction); ok {
+		if l1.Nonce == nil {
+			return "/no-nonce"
+		}
+		return "/nonce"
+	}
+	return ""
+}
+
+// StaleHashCheck: transactions of a block that was removed (and whose height now holds another
+// block) must be not-found through every by-hash accessor — never another transaction.
+// StaleBlockHashCheck: the hash of a reverted block must not resolve to anything any more (in
+// particular not to the block that replaced it).
+func StaleBlockHashCheck(c *Checker, d db.KeyValueReader, bc *blockchain.Blockchain, old *core.Header) {
+	report := func(acc string, err error, got any) {
+		c.n++
+		c.res.Hit("stale-block-hash-check")
+		if errors.Is(err, db.ErrKeyNotFound) {
+			return
+		}
+		what := fmt.Sprintf("%s of the reverted block's hash returned err=%v", acc, err)
+		if err == nil {
+			what = fmt.Sprintf("%s of the reverted block's hash resolves to %s", acc, describe(got))
+		}
+		c.failSig("reverted-block-hash-still-resolves-"+acc, what)
+	}
+	hd, err := core.GetBlockHeaderByHash(d, old.Hash)
+	report("core.GetBlockHeaderByHash", err, hd)
+	n, err := bc.BlockNumberByHash(old.Hash)
+	report("Reader.BlockNumberByHash", err, n)
+	b, err := bc.BlockByHash(old.Hash)
+	report("Reader.BlockByHash", err, b)
+	su, err := bc.StateUpdateByHash(old.Hash)
+	report("Reader.StateUpdateByHash", err, su)
+}
+
+func StaleHashCheck(c *Checker, d db.KeyValueReader, bc *blockchain.Blockchain, old []core.Transaction) {
+	for i, tx := range old {
+		kind := reflect.TypeOf(tx).Elem().Name()
+		c.res.Hit("stale-hash-check:" + kind + nonceTag(tx))
+		th := (*felt.TransactionHash)(tx.Hash())
+		report := func(acc string, err error, got any) {
+			c.n++
+			if errors.Is(err, db.ErrKeyNotFound) {
+				return
+			}
+			what := fmt.Sprintf("%s of removed transaction %d (%s) returned err=%v", acc, i, kind, err)
+			if err == nil {
+				what = fmt.Sprintf("%s of removed transaction %d (%s) resolves to %s", acc, i, kind, describe(got))
+			}
+			c.failSig("removed-tx-hash-still-resolves-"+acc, what)
+		}
+		got, err := core.GetTransactionByHash(d, th)
+		report("core.GetTransactionByHash", err, got)
+		got, err = bc.TransactionByHash(tx.Hash())
+		report("Reader.TransactionByHash", err, got)
+		rc, _, _, err := bc.Receipt(tx.Hash())
+		report("Reader.Receipt", err, rc)
+		bn, idx, err := bc.BlockNumberAndIndexByTxHash(th)
+		report("Reader.BlockNumberAndIndexByTxHash", err, [2]uint64{bn, idx})
+		if l1, ok := tx.(*core.L1HandlerTransaction); ok {
+			eh := eth.HashFromBytes(l1.MessageHash())
+			h, err := bc.L1HandlerTxnHash(&eh)
+			report("Reader.L1HandlerTxnHash", err, h)
+		}
 	}
 }
 
@@ -421,6 +513,12 @@ func ReadBack(c *Checker, d db.KeyValueStore, bc *blockchain.Blockchain, rec *Re
 			}
 			ok, err := core.HasClass(d, &ch)
 			c.eq("core.HasClass", err, ok, true)
+		}
+		if rec.L1 != nil {
+			got, err := core.GetL1Head(d)
+			c.eq("core.GetL1Head", err, &got, rec.L1)
+			got, err = bc.L1Head()
+			c.eq("Reader.L1Head", err, &got, rec.L1)
 		}
 		for ch, md := range rec.Casm {
 			got, err := core.GetClassCasmHashMetadata(d, &ch)
